@@ -4,11 +4,12 @@
   plus one; the newline table is strictly increasing and bounded by the text length; for an index within the text the
   position pair (l, c) satisfies lineStart l + c = index with l = number of newlines strictly before the index; for
   an index past the end the position is on the last line with the column measured from that line's start (fix F15);
-  line spans exist exactly for lines < count, lie inside the raw line, and shrink only by whitespace bytes.
-  The trimmed-text equality itself (`read_line i = trim (lines[i])`) is checked on the implementation by the oracle
-  for every generated string and every line index; its Lean proof needs slice/split lemmas not yet done (partial).
+  line spans exist exactly for lines < count; for each such line `i`, `line_span i` is the byte range of the line (split at
+  line feeds) without its leading and trailing white space and `read_line i` is that trimmed text, which neither starts nor
+  ends with white space (`line_span_and_text`, `lines_of_text`); beyond the last line both are `None`.
 -/
 import Lc3V.Model.Source
+import Lc3V.Lemmas.SourceLines
 namespace Lc3V.C25
 open Lc3V SourceInfo
 
@@ -174,12 +175,47 @@ theorem line_span_within (s : SourceInfo) (i a b ra rb : Nat) (hr : s.rawLineSpa
   simp only [Option.some.injEq, Prod.mk.injEq] at h
   omega
 
+/-- the lines of a text: splitting at '\n' gives count('\n') + 1 pieces without '\n' that, joined by '\n', are the text -/
+theorem lines_of_text (cs : List Char) :
+    (splitNl cs).length = (ofText cs).countLines ∧ joinNl (splitNl cs) = cs ∧ ∀ l ∈ splitNl cs, '\n' ∉ l := by
+  refine ⟨?_, joinNl_splitNl cs, splitNl_no_nl cs⟩
+  rw [splitNl_length, count_lines]
+
+/-- **line span and line text**: for every line `i` (0-based) the line is `lead ++ trim line ++ trail` with `lead`, `trail`
+    white space; `line_span i` is the byte range that starts after the earlier lines (each with its line feed) and `lead`
+    and is as long as the trimmed line; `read_line i` is the trimmed line; and the trimmed line neither starts nor ends
+    with white space (`char::is_whitespace`, so a `\r` before the line feed is trimmed as well) -/
+theorem line_span_and_text (cs : List Char) (i : Nat) (hi : i < (ofText cs).countLines) :
+    ∃ lead trail, (∀ c ∈ lead, rustWs c = true) ∧ (∀ c ∈ trail, rustWs c = true) ∧
+      (splitNl cs).getD i [] = lead ++ trim ((splitNl cs).getD i []) ++ trail ∧
+      (ofText cs).lineSpan i = some (blen (preOf (splitNl cs) i) + blen lead,
+                                     blen (preOf (splitNl cs) i) + blen lead + blen (trim ((splitNl cs).getD i []))) ∧
+      (ofText cs).readLine i = some (trim ((splitNl cs).getD i [])) ∧
+      (∀ c r, trim ((splitNl cs).getD i []) = c :: r → rustWs c = false) ∧
+      (∀ c r, trim ((splitNl cs).getD i []) = r ++ [c] → rustWs c = false) := by
+  obtain ⟨lead, h1, ⟨trail, h2, h3⟩, h4, h5⟩ := line_span_trim cs i (by rw [(lines_of_text cs).1]; exact hi)
+  exact ⟨lead, trail, h1, h3, h2, h4, h5, (trim_tight _).1, (trim_tight _).2⟩
+
+/-- beyond the last line there is no span and no text -/
+theorem no_line_beyond (cs : List Char) (i : Nat) (hi : (ofText cs).countLines ≤ i) :
+    (ofText cs).lineSpan i = none ∧ (ofText cs).readLine i = none := by
+  have : (ofText cs).lineSpan i = none := by
+    have h := line_span_some_iff (ofText cs) i
+    cases hl : (ofText cs).lineSpan i with
+    | none => rfl
+    | some x => rw [hl] at h; exact absurd (h.mp rfl) (by omega)
+  exact ⟨this, by unfold readLine; rw [this]; rfl⟩
+
+-- non-vacuity: line 1 of "ab\n  cd \r\nx" is "cd", at bytes 5..7
+example : (ofText "ab\n  cd \r\nx".toList).readLine 1 = some "cd".toList ∧
+    (ofText "ab\n  cd \r\nx".toList).lineSpan 1 = some (5, 7) := by decide
+
 -- non-vacuity: "ab\ncd" has two lines; index 7 (past the end, length 5) is on line 1, column 7 - 3 = 4
 example : (ofText "ab\ncd".toList).countLines = 2 ∧ (ofText "ab\ncd".toList).getPosPair 7 = (1, 4) ∧
     (ofText "ab\ncd".toList).getPosPair 3 = (1, 0) := by decide
 
 def obligations : List Lean.Name :=
   [``count_lines, ``nlFrom_bounds, ``nl_sorted, ``get_line_spec, ``pos_pair, ``pos_past_end, ``line_span_some_iff,
-   ``line_span_within]
+   ``line_span_within, ``lines_of_text, ``line_span_and_text, ``no_line_beyond]
 
 end Lc3V.C25
